@@ -590,8 +590,8 @@ std::string
 gen_c16()
 {
 	std::ostringstream t;
-	int mode = *pbt::welem<int>({{4, 0}, {2, 1}, {1, 2}});
-	t << "cfg " << *pbt::range<int>(1, 1000000) << " " << mode << " " << *gen::element(10, 30, 60) << " " << *pbt::range<int>(0, 3) << " 600 0\n";
+	int mode = *pbt::welem<int>({{4, 0}, {2, 1}, {1, 2}, {1, 3}});
+	t << "cfg " << *pbt::range<int>(1, 1000000) << " " << mode << " " << (mode == 3 ? *gen::element(5, 20, 50) : *gen::element(10, 30, 60)) << " " << *pbt::range<int>(0, 3) << " " << (mode == 3 ? *gen::element(60, 150, 400) : 600) << " 0\n";
 	t << "world " << *pbt::range<int>(0, 1) << " " << *gen::element(0, 0, 100, 1000, 70000) << " " << *gen::element(0, 0, 64, 5000) << " " << *gen::element(0, 0, 1, 100, 125, 126, 65535, 65536) << "\n";
 	t << "hs " << *pbt::welem<int>({{10, 0}, {1, 1}, {1, 2}, {1, 3}, {1, 4}, {1, 5}, {1, 6}, {1, 7}}) << "\n";
 	if (*pbt::welem<int>({{1, 0}, {4, 1}})) {
